@@ -211,3 +211,63 @@ func (g *zzSharedGateFactory) Create(address string) (types.Backend, error) {
 	}
 	return g.zzFactory.Create(address)
 }
+
+// C10 / C07 (a write arriving while a rebuilt replica is being verified and promoted):
+// the promotion equalises the revision counters; a write that comes in while the
+// verification is talking to the replicas is either counted by both replicas or served
+// after the promotion - when both are done the two RW replicas hold the same count.
+func ZZ_C10_WriteDuringVerify() {
+	rf := 3
+	e := zzNewEnv(rf)
+	c := e.c
+	e.n = 3
+	e.zzAttach(0, types.RW)
+	e.zzAttach(1, types.RW)
+	e.zzAttach(2, types.WO)
+	e.fe.state = types.StateUp
+	c.RWReplicaCount, c.ReadOnly = 2, false
+	zzmodel.NoFaults = true
+	e.f.noFail = true
+	src, other, tgt := zzmodel.Replicas[zzAddrs[0]], zzmodel.Replicas[zzAddrs[1]], zzmodel.Replicas[zzAddrs[2]]
+	chain := []string{"volume-head-001.img", "volume-snap-a.img"}
+	src.Chain, other.Chain, tgt.Chain = chain, chain, chain
+	src.RevCounter = zzNondetInt64("rev.source")
+	other.RevCounter = src.RevCounter
+	tgt.RevCounter = zzNondetInt64("rev.target")
+	zzAssume(zzAnd(src.RevCounter >= 1, zzAnd(src.RevCounter < 1<<40, zzAnd(tgt.RevCounter >= 0, tgt.RevCounter < 1<<40))))
+	src.Mode, other.Mode, tgt.Mode = "RW", "RW", "WO"
+	gate := make(chan struct{})
+	wdone := make(chan bool, 1)
+	opened := false
+	at := zzConcretize(zzChoice("write-arrives-at-replica-call", 6))
+	calls := 0
+	go func() {
+		<-gate
+		buf := make([]byte, 8)
+		zzmodel.OpSeq = 7
+		c.WriteAt(buf, 0)
+		wdone <- true
+	}()
+	zzmodel.OnCall = func() {
+		if !opened && calls == at {
+			opened = true
+			close(gate)
+			zzYield()
+		}
+		calls++
+	}
+	verr := c.VerifyRebuildReplica(zzAddrs[2])
+	zzmodel.OnCall = nil
+	if !opened {
+		close(gate)
+	}
+	zzSettle()
+	zzAssert(verr == nil, "C10.write-during-verify.promotion-refused")
+	zzAssert(len(wdone) == 1, "C10.write-during-verify.write-never-served")
+	if verr == nil && e.modeOf(zzAddrs[2]) == types.RW && e.modeOf(zzAddrs[0]) == types.RW && e.modeOf(zzAddrs[1]) == types.RW {
+		zzReach("C10.write-during-verify.promoted")
+		zzAssert(src.Counter() == tgt.Counter() && other.Counter() == tgt.Counter(), "C10.write-during-verify.RW-replicas-hold-different-revision-counts")
+		zzAssert(len(src.Applied) == 1 && len(tgt.Applied) == 1, "C10.write-during-verify.write-not-applied-by-the-replicas")
+	}
+	zzReach("C10.write-during-verify.done")
+}
